@@ -157,6 +157,18 @@ Theorem C09_wta_no_cost_invalid : forall val m inp dmin dmax mx B invalid conf m
   wta_on_volume val m inp dmin dmax mx B invalid conf mask r c = invalid.
 Proof. intros. apply wta_no_cost_invalid; assumption. Qed.
 
+(* restriction: nested scalar intervals, if the winner of the run on [a', b'] lies in [a, b] the run on
+   [a, b] has the same winner -- ties included (the relation the harness tests on the real code) *)
+Theorem C09_wta_restriction : forall val m inp a b a' b' mx B B' invalid invalid' conf conf' mask mask' r c kJ,
+  1 <= B -> 1 <= B' -> 0 < i_s inp -> a <= b -> a' <= a -> b <= b' ->
+  0 <= r < i_ny inp -> 0 <= c < i_nx inp ->
+  0 <= kJ < nb_disp (i_s inp) a b ->
+  mvolume m (scalar_grids inp a' b') a' b' r c (kJ + (a - a') * i_s inp) <> None ->
+  wta_on_volume val m (scalar_grids inp a' b') a' b' mx B' invalid' conf' mask' r c
+    = Some (sample_q (i_s inp) a' (kJ + (a - a') * i_s inp)) ->
+  wta_on_volume val m (scalar_grids inp a b) a b mx B invalid conf mask r c = Some (sample_q (i_s inp) a kJ).
+Proof. exact wta_restriction. Qed.
+
 (* ---- whatever follows: the invariant and its composition (PARTIAL, see below) *)
 
 (* state after the disparity step: the map and which pixels are valid *)
@@ -318,6 +330,7 @@ Print Assumptions C09_dsp_index_consistent.
 Print Assumptions C09_stored_interval_is_searched.
 Print Assumptions C09_wta_within_interval.
 Print Assumptions C09_wta_no_cost_invalid.
+Print Assumptions C09_wta_restriction.
 Print Assumptions C09_final_disp_in_global_interval_partial.
 Print Assumptions C09_wta_state_in_global_interval.
 Print Assumptions C09_cbca_plane_ext.
